@@ -41,6 +41,20 @@ def finish (n : Node) (path : Path) (v : Val) (seen0 : Nat) (st2 : EvSt) : EvSt 
     tainted := if (st2.unsafeSeen != seen0 || !eSafe n.flags) then path :: st2.tainted else st2.tainted,
     inProgress := st2.inProgress.erase path }
 
+/-- reading a tainted memo entry in non-strict mode: the consumer has now seen unsafe content -/
+def seeTaint (st : EvSt) : EvSt := { st with unsafeSeen := st.unsafeSeen + 1 }
+
+/-- the state after a memo hit on `path` -/
+def hit (n : Node) (path : Path) (st : EvSt) : EvSt :=
+  if st.tainted.contains path then seeTaint (bump n st) else bump n st
+
+@[simp] theorem seeTaint_cache (st : EvSt) : (seeTaint st).cache = st.cache := rfl
+@[simp] theorem seeTaint_tainted (st : EvSt) : (seeTaint st).tainted = st.tainted := rfl
+@[simp] theorem seeTaint_inProgress (st : EvSt) : (seeTaint st).inProgress = st.inProgress := rfl
+@[simp] theorem seeTaint_touched (st : EvSt) : (seeTaint st).touched = st.touched := rfl
+@[simp] theorem seeTaint_log (st : EvSt) : (seeTaint st).log = st.log := rfl
+@[simp] theorem seeTaint_unsafeSeen (st : EvSt) : (seeTaint st).unsafeSeen = st.unsafeSeen + 1 := rfl
+
 @[simp] theorem bump_cache (n : Node) (st : EvSt) : (bump n st).cache = st.cache := by
   unfold bump; split <;> rfl
 @[simp] theorem bump_tainted (n : Node) (st : EvSt) : (bump n st).tainted = st.tainted := by
@@ -56,6 +70,27 @@ theorem bump_unsafeSeen (n : Node) (st : EvSt) :
   unfold bump; cases eSafe n.flags <;> rfl
 theorem bump_safe {n : Node} (h : eSafe n.flags = true) (st : EvSt) : bump n st = st := by
   simp [bump, h]
+
+@[simp] theorem hit_cache (n : Node) (p : Path) (st : EvSt) : (hit n p st).cache = st.cache := by
+  unfold hit; split <;> simp
+@[simp] theorem hit_tainted (n : Node) (p : Path) (st : EvSt) : (hit n p st).tainted = st.tainted := by
+  unfold hit; split <;> simp
+@[simp] theorem hit_inProgress (n : Node) (p : Path) (st : EvSt) : (hit n p st).inProgress = st.inProgress := by
+  unfold hit; split <;> simp
+@[simp] theorem hit_touched (n : Node) (p : Path) (st : EvSt) : (hit n p st).touched = st.touched := by
+  unfold hit; split <;> simp
+@[simp] theorem hit_log (n : Node) (p : Path) (st : EvSt) : (hit n p st).log = st.log := by
+  unfold hit; split <;> simp
+theorem hit_unsafeSeen (n : Node) (p : Path) (st : EvSt) :
+    (hit n p st).unsafeSeen = (bump n st).unsafeSeen + (if p ∈ st.tainted then 1 else 0) := by
+  unfold hit; by_cases h : p ∈ st.tainted <;> simp [h]
+theorem hit_untainted {n : Node} {p : Path} {st : EvSt} (h : p ∉ st.tainted) : hit n p st = bump n st := by
+  simp [hit, h]
+theorem le_bump_unsafeSeen (n : Node) (st : EvSt) : st.unsafeSeen ≤ (bump n st).unsafeSeen := by
+  rw [bump_unsafeSeen]; split <;> omega
+theorem le_hit_unsafeSeen (n : Node) (p : Path) (st : EvSt) : st.unsafeSeen ≤ (hit n p st).unsafeSeen := by
+  have := le_bump_unsafeSeen n st
+  rw [hit_unsafeSeen]; omega
 
 @[simp] theorem enter_cache (p : Path) (st : EvSt) : (enter p st).cache = st.cache := rfl
 @[simp] theorem enter_tainted (p : Path) (st : EvSt) : (enter p st).tainted = st.tainted := rfl
@@ -85,7 +120,9 @@ theorem evalNodeF_succ (root : Node) (w : World) (fuel : Nat) (rs : Bool) (n : N
       else
         match plookup path (bump n st).cache with
         | some v =>
-          if rs && (bump n st).tainted.contains path then .error .unsafeE else .ok (v, bump n st)
+          if (bump n st).tainted.contains path then
+            if rs then .error .unsafeE else .ok (v, seeTaint (bump n st))
+          else .ok (v, bump n st)
         | none =>
           if (bump n st).inProgress.contains path then .error .recursion
           else
@@ -101,7 +138,7 @@ theorem evalNodeF_ok_inv {root : Node} {w : World} {fuel : Nat} {rs : Bool} {n :
     {st st' : EvSt} {v : Val}
     (h : evalNodeF root w (fuel + 1) rs n path st = .ok (v, st')) :
     (rs = true → eSafe n.flags = true) ∧
-    ((plookup path st.cache = some v ∧ (rs = true → path ∉ st.tainted) ∧ st' = bump n st) ∨
+    ((plookup path st.cache = some v ∧ (rs = true → path ∉ st.tainted) ∧ st' = hit n path st) ∨
      (plookup path st.cache = none ∧ path ∉ st.inProgress ∧
       ∃ st2, evalImpl (evalNodeF root w fuel) root w rs n path (enter path (bump n st)) = .ok (v, st2) ∧
         st' = finish n path v (bump n st).unsafeSeen st2)) := by
@@ -116,14 +153,19 @@ theorem evalNodeF_ok_inv {root : Node} {w : World} {fuel : Nat} {rs : Bool} {n :
       · rfl
     · split at h
       · rename_i v' hv
+        left
         split at h
-        · cases h
         · rename_i ht
+          have ht' : path ∈ st.tainted := by simpa using ht
+          split at h
+          · cases h
+          · rename_i hrs
+            cases h
+            refine ⟨by simpa using hv, fun h' => absurd h' hrs, by simp [hit, ht']⟩
+        · rename_i ht
+          have ht' : path ∉ st.tainted := by simpa using ht
           cases h
-          left
-          refine ⟨by simpa using hv, ?_, rfl⟩
-          intro hrs hmem
-          simp [hrs, hmem] at ht
+          exact ⟨by simpa using hv, fun _ => ht', by simp [hit, ht']⟩
       · rename_i hv
         split at h
         · cases h
@@ -208,6 +250,43 @@ theorem Calls.rs_mono {root : Node} {rs rs' : Bool} {n m : Node} {path p : Path}
     (h : Calls root rs n path rs' m p) (hrs : rs = true) : rs' = true := by
   cases h <;> simp [hrs]
 
+/-- inversion of `ctx.get_node`: an untainted memo hit, a tainted memo hit in non-strict mode (which
+    bumps the counter), or a node of the tree -/
+theorem ctxGetNode_ok_inv {root : Node} {rs : Bool} {p : Path} {st st1 : EvSt} {g : Got}
+    (h : ctxGetNode root rs p st = .ok (g, st1)) :
+    (∃ v, g = .value v ∧ plookup p st.cache = some v ∧
+        ((p ∉ st.tainted ∧ st1 = st) ∨ (p ∈ st.tainted ∧ rs = false ∧ st1 = seeTaint st))) ∨
+    (∃ n, g = .node n ∧ plookup p st.cache = none ∧ getNode root p = some n ∧ st1 = st) := by
+  unfold ctxGetNode at h
+  split at h
+  · rename_i v hv
+    left
+    split at h
+    · rename_i ht
+      split at h
+      · cases h
+      · rename_i hrs
+        cases h
+        exact ⟨v, rfl, hv, .inr ⟨by simpa using ht, by simpa using hrs, rfl⟩⟩
+    · rename_i ht
+      cases h
+      exact ⟨v, rfl, hv, .inl ⟨by simpa using ht, rfl⟩⟩
+  · rename_i hv
+    right
+    split at h
+    · cases h
+    · rename_i n hn
+      cases h
+      exact ⟨n, rfl, hv, hn, rfl⟩
+
+/-- in strict mode `ctx.get_node` never changes the state -/
+theorem ctxGetNode_strict {root : Node} {p : Path} {st st1 : EvSt} {g : Got}
+    (h : ctxGetNode root true p st = .ok (g, st1)) : st1 = st := by
+  rcases ctxGetNode_ok_inv h with ⟨_, _, _, ⟨_, e⟩ | ⟨_, hrs, _⟩⟩ | ⟨_, _, _, _, e⟩
+  · exact e
+  · cases hrs
+  · exact e
+
 section lift
 variable {I : EvSt → Prop} {R : EvSt → EvSt → Prop}
 
@@ -236,6 +315,7 @@ theorem evalItems_lift (hrefl : ∀ s, R s s) (htrans : ∀ a b c, R a b → R b
 
 theorem xrefLoop_lift (hrefl : ∀ s, R s s)
     {rec : Rec} {root : Node} {rs : Bool} {self : Path}
+    (hsee : rs = false → ∀ s, I s → I (seeTaint s) ∧ R s (seeTaint s))
     (hrec : ∀ m tp s v s', getNode root tp = some m → I s → rec rs m tp s = .ok (v, s') → I s' ∧ R s s') :
     ∀ (fuel : Nat) (cur : String) (chain : List String) (st : EvSt) (v : Val) (st' : EvSt),
     I st → xrefLoop rec root rs self fuel cur chain st = .ok (v, st') → I st' ∧ R st st'
@@ -247,22 +327,23 @@ theorem xrefLoop_lift (hrefl : ∀ s, R s s)
     · rename_i tp htp
       split at h
       · cases h
-      · split at h
-        · cases h
-        · cases h; exact ⟨hI, hrefl _⟩
-      · rename_i n hg
+      · rename_i v0 st1 hg
         split at h
         · cases h
-        · have hgn : getNode root tp = some n := by
-            unfold ctxGetNode at hg
-            split at hg
-            · split at hg <;> cases hg
-            · split at hg
-              · cases hg
-              · rename_i n' hn'; cases hg; exact hn'
-          split at h
-          · exact xrefLoop_lift hrefl hrec fuel _ _ st v st' hI h
-          · exact hrec _ _ _ _ _ hgn hI h
+        · cases h
+          rcases ctxGetNode_ok_inv hg with ⟨_, _, _, ⟨_, rfl⟩ | ⟨_, hrs, rfl⟩⟩ | ⟨_, hn, _⟩
+          · exact ⟨hI, hrefl _⟩
+          · exact hsee hrs _ hI
+          · cases hn
+      · rename_i n st1 hg
+        split at h
+        · cases h
+        · rcases ctxGetNode_ok_inv hg with ⟨_, hn, _⟩ | ⟨n', hn, _, hgn, rfl⟩
+          · cases hn
+          · cases hn
+            split at h
+            · exact xrefLoop_lift hrefl hsee hrec fuel _ _ _ v st' hI h
+            · exact hrec _ _ _ _ _ hgn hI h
 
 theorem ecfgLookup_lift (hrefl : ∀ s, R s s)
     {rec : Rec} {root : Node} {nm : String} {st st' : EvSt} {v : Val}
@@ -318,6 +399,7 @@ theorem resolveNames_lift (hrefl : ∀ s, R s s) (htrans : ∀ a b c, R a b → 
     dynamic node. -/
 theorem evalImpl_lift (hrefl : ∀ s, R s s) (htrans : ∀ a b c, R a b → R b c → R a c)
     {rec : Rec} {root : Node} {w : World} {rs : Bool} {n : Node} {path : Path} {st st' : EvSt} {v : Val}
+    (hsee : rs = false → ∀ s, I s → I (seeTaint s) ∧ R s (seeTaint s))
     (hrec : ∀ rs' m p s v s', Calls root rs n path rs' m p → I s → rec rs' m p s = .ok (v, s') → I s' ∧ R s s')
     (hI : I st) (h : evalImpl rec root w rs n path st = .ok (v, st')) :
     ∃ st1, I st1 ∧ R st st1 ∧
@@ -336,7 +418,7 @@ theorem evalImpl_lift (hrefl : ∀ s, R s s) (htrans : ∀ a b c, R a b → R b 
     · cases h; exact ⟨st, hI, hrefl _, .inl rfl⟩
     · cases h; exact ⟨st, hI, hrefl _, .inl rfl⟩
     · rename_i target
-      have := xrefLoop_lift (I := I) (R := R) hrefl
+      have := xrefLoop_lift (I := I) (R := R) hrefl hsee
         (fun m tp s v s' hg => hrec _ _ _ _ _ _ (Calls.target hg)) _ _ _ _ _ _ hI h
       exact ⟨st', this.1, this.2, .inl rfl⟩
     · cases h
@@ -428,11 +510,12 @@ theorem evalImpl_lift (hrefl : ∀ s, R s s) (htrans : ∀ a b c, R a b → R b 
 /-- `evalImpl_lift` with the log entry expressed as a (possibly empty) suffix -/
 theorem evalImpl_lift' (hrefl : ∀ s, R s s) (htrans : ∀ a b c, R a b → R b c → R a c)
     {rec : Rec} {root : Node} {w : World} {rs : Bool} {n : Node} {path : Path} {st st' : EvSt} {v : Val}
+    (hsee : rs = false → ∀ s, I s → I (seeTaint s) ∧ R s (seeTaint s))
     (hrec : ∀ rs' m p s v s', Calls root rs n path rs' m p → I s → rec rs' m p s = .ok (v, s') → I s' ∧ R s s')
     (hI : I st) (h : evalImpl rec root w rs n path st = .ok (v, st')) :
     ∃ st1 extra, I st1 ∧ R st st1 ∧ st' = { st1 with log := st1.log ++ extra } ∧
       (extra = [] ∨ ∃ what, DynSafe n what ∧ extra = [{ path := path, what := what }]) := by
-  obtain ⟨st1, hI1, hR1, hd⟩ := evalImpl_lift hrefl htrans hrec hI h
+  obtain ⟨st1, hI1, hR1, hd⟩ := evalImpl_lift hrefl htrans hsee hrec hI h
   rcases hd with rfl | ⟨what, hw, rfl⟩
   · exact ⟨st', [], hI1, hR1, by simp, .inl rfl⟩
   · exact ⟨st1, _, hI1, hR1, rfl, .inr ⟨what, hw, rfl⟩⟩
@@ -541,6 +624,12 @@ theorem Ext.trans (a b c : EvSt) (h1 : Ext a b) (h2 : Ext b c) : Ext a c := by
     obtain ⟨n2, e2⟩ := h2.log
     exact ⟨n1 ++ n2, by rw [e2, e1, List.append_assoc]⟩
 
+theorem WF.seeTaint {st : EvSt} (h : WF st) : WF (seeTaint st) :=
+  ⟨h.prog, h.taint, h.logged, h.nodup⟩
+
+theorem Ext.seeTaint (st : EvSt) : Ext st (seeTaint st) :=
+  ⟨rfl, fun _ _ h => h, fun _ h => h, fun _ h => .inl h, Nat.le_succ _, ⟨[], by simp⟩⟩
+
 /-- Main state lemma: a successful `evalNodeF` keeps the invariant and only extends the state. -/
 theorem evalNodeF_wf (root : Node) (w : World) :
     ∀ (fuel : Nat) (rs : Bool) (n : Node) (path : Path) (st : EvSt) (v : Val) (st' : EvSt),
@@ -551,7 +640,7 @@ theorem evalNodeF_wf (root : Node) (w : World) :
     rcases hcase with ⟨_, _, rfl⟩ | ⟨hnone, hnip, st2, himpl, rfl⟩
     · refine ⟨⟨(by simpa using hwf.prog), (by simpa using hwf.taint), (by simpa using hwf.logged),
         (by simpa using hwf.nodup)⟩, ⟨(by simp), (by simp), (by simp), (by simp; intro p hp; exact .inl hp), ?_, ⟨[], (by simp)⟩⟩⟩
-      rw [bump_unsafeSeen]; split <;> omega
+      exact le_hit_unsafeSeen n path st
     · have hwf1 : WF (enter path (bump n st)) := by
         refine ⟨?_, (by simpa using hwf.taint), (by simpa using hwf.logged), (by simpa using hwf.nodup)⟩
         intro p hp
@@ -562,6 +651,7 @@ theorem evalNodeF_wf (root : Node) (w : World) :
         · exact hwf.prog p hp
       obtain ⟨s1, extra, hwf1', hext, rfl, hextra⟩ :=
         evalImpl_lift' (I := WF) (R := Ext) Ext.refl Ext.trans
+          (fun _ s hs => ⟨hs.seeTaint, Ext.seeTaint s⟩)
           (fun rs' m p s v s' _ hI hr => evalNodeF_wf root w fuel rs' m p s v s' hI hr) hwf1 himpl
       have hprog : s1.inProgress = path :: st.inProgress := by simpa using hext.prog
       have hpathnone : plookup path s1.cache = none := hwf1'.prog path (by simp [hprog])
@@ -665,6 +755,7 @@ theorem evalNodeF_logExt (root : Node) (w : World) :
     · exact ⟨[], by simp, by simp⟩
     · obtain ⟨s1, extra, _, ⟨new, hnew, hgood⟩, rfl, hextra⟩ :=
         evalImpl_lift' (I := fun _ => True) (R := LogExt root) (LogExt.refl root) (LogExt.trans root)
+          (fun _ s _ => ⟨trivial, LogExt.refl root s⟩)
           (fun rs' m p s v s' hc _ hr =>
             ⟨trivial, evalNodeF_logExt root w fuel rs' m p s v s' (hc.placed hp) hr⟩) trivial himpl
       refine ⟨new ++ extra, ?_, ?_⟩
@@ -686,11 +777,12 @@ theorem evalNodeF_rs_seen (root : Node) (w : World) :
   | fuel + 1, n, path, st, v, st', h => by
     obtain ⟨hs, hcase⟩ := evalNodeF_ok_inv h
     have hb : bump n st = st := bump_safe (hs rfl) st
-    rcases hcase with ⟨_, _, rfl⟩ | ⟨_, _, st2, himpl, rfl⟩
-    · rw [hb]
+    rcases hcase with ⟨_, ht, rfl⟩ | ⟨_, _, st2, himpl, rfl⟩
+    · rw [hit_untainted (ht rfl), hb]
     · obtain ⟨s1, extra, _, hR, rfl, _⟩ :=
         evalImpl_lift' (I := fun _ => True) (R := fun s s' => s'.unsafeSeen = s.unsafeSeen)
           (fun _ => rfl) (fun _ _ _ h1 h2 => h2.trans h1)
+          (fun hrs => by cases hrs)
           (fun rs' m p s v s' hc _ hr => by
             have := hc.rs_mono rfl; subst this
             exact ⟨trivial, evalNodeF_rs_seen root w fuel m p s v s' hr⟩) trivial himpl
@@ -733,7 +825,7 @@ theorem evalNodeF_rs_untainted {root : Node} {w : World} {fuel : Nat} {n : Node}
     refine ⟨hs rfl, ?_⟩
     have hb : bump n st = st := bump_safe (hs rfl) st
     rcases hcase with ⟨_, ht, rfl⟩ | ⟨hnone, hnip, st2, himpl, rfl⟩
-    · rw [hb]; exact ht rfl
+    · rw [hit_tainted]; exact ht rfl
     · have hwf1 : WF (enter path st) := by
         refine ⟨?_, (by simpa using hwf.taint), (by simpa using hwf.logged), (by simpa using hwf.nodup)⟩
         intro p hp
@@ -744,6 +836,7 @@ theorem evalNodeF_rs_untainted {root : Node} {w : World} {fuel : Nat} {n : Node}
       rw [hb] at himpl
       obtain ⟨s1, extra, hwf1', hR, rfl, _⟩ :=
         evalImpl_lift' (I := WF) (R := ExtS) ExtS.refl ExtS.trans
+          (fun hrs => by cases hrs)
           (fun rs' m p s v s' hc hI hr => by
             have := hc.rs_mono rfl; subst this
             exact evalNodeF_rs_extS hI hr) hwf1 himpl
